@@ -219,12 +219,14 @@ def assumptions_report(files):
 def finish(ctx, level='proof', obligations=0, discharged=0, checker_cmd='', extra=None, assumptions=None):
     os.makedirs(os.path.join(VERIF, 'evidence'), exist_ok=True)
     os.makedirs(os.path.join(VERIF, 'replays'), exist_ok=True)
-    new = []
+    new, seen_known = [], {}
     for sig, msg, rep in ctx.violations:
         if (ctx.pid, sig) in ctx.known:
-            print('KNOWN-FINDING: property=%s %s' % (ctx.pid, ctx.known[(ctx.pid, sig)]))
+            seen_known[sig] = seen_known.get(sig, 0) + 1
         else:
             new.append((sig, msg, rep))
+    for sig, cnt in seen_known.items():
+        print('KNOWN-FINDING: property=%s %s [%d cases in this run]' % (ctx.pid, ctx.known[(ctx.pid, sig)], cnt))
     cov = dict(ctx.cov)
     cov['distinct_nontrivial'] = len(ctx._distinct)
     cov['rule'] = (extra or {}).get('rule', 'cases generated from VERIF_SEED by tools/nopgen.py; a case is distinct by its text and non-trivial if it reaches the library (not rejected by the harness glue)')
